@@ -40,6 +40,8 @@ type Step struct {
 //	refresh  udp: application steps while a second goroutine runs refresh rounds at RoundPausesUs
 //	ticker   udp: the real refresh ticker at the minimum interval (1 s) runs for ~2.3 s of sends
 //	peerclose tcp: the collector side closes after CloseAfterUs; CheckIntervalMs is the check interval
+//	idleclose tcp: the application is idle while the collector side closes CloseAfterUs after the
+//	          exporter was created; after 20 check intervals (+0.2 s) a single send must fail, not vanish
 //	close    tcp or udp: Closers goroutines call CloseConnToCollector after ClosePausesUs while the application sends
 type Case struct {
 	Kind            string `json:"kind"`
@@ -129,6 +131,8 @@ func runCase(c Case) (*ev.Failure, bool) {
 		return runRefresh(c)
 	case "peerclose":
 		return runPeerClose(c)
+	case "idleclose":
+		return runIdleClose(c)
 	}
 	return runClose(c)
 }
@@ -411,6 +415,35 @@ func runPeerClose(c Case) (*ev.Failure, bool) {
 	return nil, true
 }
 
+// runIdleClose: nothing is sent while the collector side closes; only the exporter's connection
+// check can notice. A send made well after the check interval must then fail instead of being
+// written into a connection nobody reads.
+func runIdleClose(c Case) (*ev.Failure, bool) {
+	peer, err := exph.NewPeer("tcp", false)
+	if err != nil {
+		return nil, false
+	}
+	defer peer.Close()
+	interval := time.Duration(max(1, c.CheckIntervalMs)) * time.Millisecond
+	ep, err := exporter.InitExportingProcess(exporter.ExporterInput{CollectorAddress: peer.Addr, CollectorProtocol: "tcp", ObservationDomainID: 14, CheckConnInterval: interval})
+	if err != nil {
+		return ev.Failf("InitExportingProcess: %v", err), false
+	}
+	defer ep.CloseConnToCollector()
+	ts, _ := exph.TemplateSet(256, templates[0], 0)
+	if _, err := ep.SendSet(ts); err != nil {
+		return ev.Failf("template: %v", err), false
+	}
+	sleepUs(c.CloseAfterUs)
+	peer.CloseConn()
+	time.Sleep(20*interval + 200*time.Millisecond)
+	ds, _ := exph.DataSet(256, templates[0], dataRecs(0, 1, 1), 0)
+	if _, err := ep.SendSet(ds); err == nil {
+		return ev.Failf("the collector closed the connection %v ago (check interval %v, the application was idle meanwhile) and SendSet still reports success: the message vanishes", 20*interval+200*time.Millisecond, interval), true
+	}
+	return nil, true
+}
+
 func runClose(c Case) (*ev.Failure, bool) {
 	// repeated: the window for two Close calls to collide is narrow
 	over := false
@@ -562,6 +595,11 @@ func genCase(t *rapid.T) Case {
 		for n := rapid.IntRange(1, 12).Draw(t, "nrounds"); n > 0; n-- {
 			c.RoundPausesUs = append(c.RoundPausesUs, rapid.SampledFrom([]int{0, 0, 10, 60, 200, 500}).Draw(t, "rpause"))
 		}
+	case 10:
+		c.Kind, c.Proto = "idleclose", "tcp"
+		c.CheckIntervalMs = rapid.SampledFrom([]int{1, 2, 5}).Draw(t, "interval")
+		// before the first check, between checks, well after several checks
+		c.CloseAfterUs = c.CheckIntervalMs * rapid.SampledFrom([]int{0, 500, 1500, 3500, 10000}).Draw(t, "closeafter_permille")
 	case 6, 7:
 		c.Kind, c.Proto = "peerclose", "tcp"
 		c.CloseAfterUs = rapid.SampledFrom([]int{0, 100, 1000, 5000, 20000}).Draw(t, "closeafter")
